@@ -41,4 +41,4 @@ Definition run_f2q_batch T m n ne spin utd (ls : list (list (list (N * bool) * (
   join "|" (map (run_f2q T m n ne spin utd) ls).
 
 (* fermion_to_qubit_mapping(op, "HCB") *)
-Definition run_hcb (l : list (list (N * bool) * (Z * Z * nat))) : string := show_op (hcb_fop CycS (mk_fop l)).
+Definition run_hcb (T : hcb_tab) (l : list (list (N * bool) * (Z * Z * nat))) : string := show_op (hcb_fop CycS T (mk_fop l)).
